@@ -74,6 +74,25 @@ def gen_fen(rng):
     return fen
 
 
+def extreme_fens():
+    """the longest and shortest strings a FEN can be: placements of 71 characters (32 men, no two adjacent empty squares), 8 x "8"
+    ranks with two kings, every field at its longest (KQkq, an en-passant square, 5-digit counters), both 4- and 6-field"""
+    out = []
+    dense = ["r1b1k1n1/1p1p1p1p/1n1q1b1r/p1p1p1p1/P1P1P1P1/1N1Q1B1R/1P1P1P1P/R1B1K1N1",
+             "1r1n1b1k/p1p1p1p1/1p1p1p1p/q1b1n1r1/1R1N1B1Q/P1P1P1P1/1P1P1P1P/K1B1N1R1",
+             "r1b1k1n1/1p1p1p1p/1n1q1b1r/p1p1p1p1/P1P1P1P1/1N1Q1B1R/1P1P1P1P/R1B1K2N"]
+    for pl in dense:
+        for rest in ("w - - 3 20", "b - - 0 1", "w Qq - 65 6000", "w - -", "b - - 149 65535"):
+            if "Qq" in rest and not (pl.endswith("R1B1K1N1") and pl.startswith("r1b1k")):
+                continue
+            out.append(pl + " " + rest)
+    out.append("rnbqkbnr/pppp1ppp/8/4p3/4P3/8/PPPP1PPP/RNBQKBNR w KQkq e6 149 65535")
+    out.append("rnbqkbnr/pppp1ppp/8/4p3/4P3/8/PPPP1PPP/RNBQKBNR b KQkq e3 0 60000")
+    out.append("k7/8/8/8/8/8/8/7K w - - 0 1")
+    out.append("7k/8/8/8/8/8/8/K7 b - -")
+    return out
+
+
 def run(ctx):
     prop = "C07"
     gate, err = SP.prepare(prop, extra_targets=B.MODEL_TARGETS)
@@ -82,7 +101,7 @@ def run(ctx):
     violations, cov = [], {"samples": []}
     rng = random.Random(ctx["seed"] + 7)
     n = 1200 if ctx["tier"] == "quick" else 100000
-    fens = list(dict.fromkeys(P.corpus() + P.bench_fens() + [gen_fen(rng) for _ in range(n)]))
+    fens = list(dict.fromkeys(P.corpus() + P.bench_fens() + extreme_fens() + [gen_fen(rng) for _ in range(n)]))
     rc, so, se = C.driver(["fen"], "\n".join(fens) + "\n", timeout=900)
     eng = [json.loads(l) for l in so.splitlines()]
     items = ["match fen_case %s, SpecFen.parse %s with Some st, Some p => Some (st, match from_fen %s with Some b => pos_eqb (abs b) p | None => false end) | _, _ => None end"
